@@ -1,6 +1,7 @@
 (* C13 property theorems. Nothing but statements closed by `exact <lemma>` and Print Assumptions. *)
 From Coq Require Import ZArith List Bool.
 From EP Require Import C13.Model C13.Proofs.
+From EP Require Gen.C13Shape.
 Import ListNotations.
 Open Scope Z_scope.
 
@@ -89,3 +90,9 @@ Print Assumptions C13_blocks_disjoint.
 Example C13_tables_nonvacuous : length minor_tables = 30%nat /\ length minor_reference = 30%nat /\
   length major_tables = 7%nat /\ (length block_tables > 300)%nat.
 Proof. vm_compute. repeat split; repeat constructor. Qed.
+
+(* the statements of /repo that the hand model mirrors are present in the source as read on this run (T-data,
+   harness/shape.py -> Gen/C13Shape.v) *)
+Theorem C13_source_shape : Gen.C13Shape.shape_ok = true.
+Proof. reflexivity. Qed.
+Print Assumptions C13_source_shape.
